@@ -5,6 +5,7 @@ import Ajson.Model.Path
 import Ajson.Proofs.Anchor
 import Ajson.Proofs.Roots
 import Ajson.Proofs.CloneSound
+import Ajson.Proofs.Steps
 
 namespace Ajson.Props.C19
 open Ajson Ajson.Heap
